@@ -11,7 +11,7 @@ import json
 import os
 from collections import defaultdict
 
-from . import boxes, framework as fw, record, tlc
+from . import common, boxes, framework as fw, record, tlc
 from .record import mkcfg
 
 EXEC_CLAUSES = ("C01.", "C02.", "C03.", "C12.")
@@ -105,7 +105,7 @@ def helper_values(fn_name, nmax):
     for n in range(1, nmax + 1):
         for s in range(1 if n > 1 else 0, n + 2):
             try:
-                v = int(fn(n, s))
+                v = int(common.timed('helper:' + fn_name, lambda: fn(n, s), 10))
             except Exception:
                 v = -1
             out.append({"kind": fn_name, "n": n, "s": s, "v": v, "src": f"helper({n},{s})"})
@@ -223,7 +223,7 @@ def planner_scan(ctx, nmax, smax):
         for s in range(1, min(n - 1, smax) + 1):
             for traj, name in ((0, "maximum"), (1, "revolve")):
                 try:
-                    v = int(n_advance(n, s, trajectory=name))
+                    v = int(common.timed('n_advance', lambda: n_advance(n, s, trajectory=name), 5))
                 except Exception:
                     v = -1
                 claims.append({"kind": "adv", "n": n, "s": s, "v": v})
@@ -270,7 +270,7 @@ def mixed_planner_scan(ctx, nmax, smax):
         for s in range(1, min(n - 1, smax) + 1):
             for fn in ("mixed_step_memoization", "optimal_steps_mixed"):
                 try:
-                    v = getattr(mx, fn)(n, s)
+                    v = common.timed('mixed:' + fn, lambda: getattr(mx, fn)(n, s), 20)
                     v = int(v[2]) if isinstance(v, tuple) else int(v)
                 except Exception:
                     v = -1
